@@ -33,11 +33,26 @@ Theorem C17_stream : forall is_url fs v md s r s',
   write_stream is_url fs v md s = (r, s') ->
   (exists e, dump is_url fs v md = Err e /\ r = Err e /\ s' = s) \/
   (exists c, dump is_url fs v md = Ok c /\
-     ((r = Ok tt /\ ss_content s' = (if ss_seekable s then [] else ss_content s) ++ c) \/
+     ((r = Ok tt /\
+       ss_content s' = (if ss_seekable s then c else write_at (ss_content s) (ss_pos s) c) /\
+       ss_pos s' = (if ss_seekable s then 0 else ss_pos s) + Z.of_nat (length c)) \/
       (r = Err DWrite /\ ss_fail s = true /\
        ss_content s' = (if ss_seekable s then [] else ss_content s)))).
 Proof. exact write_stream_cases. Qed.
 Print Assumptions C17_stream.
+
+(* a seekable stream holds exactly the dumped bytes after a successful export, whatever it held before and
+   wherever its position was (before, at or beyond the end, or still at 0 with longer content behind it) *)
+Theorem C17_seekable_stream_exact : forall is_url fs v md s s',
+  ss_seekable s = true -> write_stream is_url fs v md s = (Ok tt, s') ->
+  exists c, dump is_url fs v md = Ok c /\ ss_content s' = c.
+Proof. exact write_stream_seekable_exact. Qed.
+Print Assumptions C17_seekable_stream_exact.
+
+(* an appending stream (position = end of its content) keeps what it held and gets the dump after it *)
+Theorem C17_append : forall old c, write_at old (Z.of_nat (length old)) c = old ++ c.
+Proof. exact write_at_end. Qed.
+Print Assumptions C17_append.
 
 (* non-vacuity: an unconvertible (None value) but otherwise empty metainfo, validate=false:
    the existing file is untouched; and a refused overwrite *)
@@ -47,3 +62,10 @@ Example C17_example :
   write simple_is_url FSNone false false [] (TFile [1%N]) = (Err DWrite, TFile [1%N]) /\
   exists c, write simple_is_url FSNone true false [] (TFile [1%N]) = (Ok tt, TFile c).
 Proof. cbv zeta. split; [vm_compute; reflexivity|]. split; [vm_compute; reflexivity|]. eexists. vm_compute. reflexivity. Qed.
+
+(* non-vacuity: a seekable stream with 5 bytes of prior content and its position at 0, 2 or 9 ends up with the same content *)
+Example C17_stream_example :
+  let run pos := write_stream simple_is_url FSNone false [] {| ss_seekable := true; ss_content := [1; 2; 3; 4; 5]%N; ss_pos := pos; ss_fail := false |} in
+  fst (run 0) = Ok tt /\ ss_content (snd (run 0)) = ss_content (snd (run 2)) /\ ss_content (snd (run 2)) = ss_content (snd (run 9)) /\
+  write_at [1; 2; 3; 4; 5]%N 1 [9; 9]%N = [1; 9; 9; 4; 5]%N /\ write_at [1]%N 3 [9]%N = [1; 0; 0; 9]%N.
+Proof. vm_compute. repeat split; reflexivity. Qed.
